@@ -27,6 +27,9 @@ OVERRIDE_NEEDS = {
 def needs(notes, name=''):
     if name in OVERRIDE_NEEDS:
         return OVERRIDE_NEEDS[name]
+    m2 = re.search(r'\*\*Needed to manifest\*\*[:.]?\s*(.*?)(?=\n\s*\**Why (?:existing|the) tests|\Z)', notes, re.S | re.I)
+    if m2 and m2.group(1).strip():
+        return ' '.join(m2.group(1).split())[:1500]
     m = re.search(r'(?:what\s+(?:is|it)\s+)?need(?:s|ed)?(?:\s+to\s+manifest)?\s*[.:*]*\**\s*[:.]?\s*(.*?)(?=\n\s*\n\**(?:Why|Demo|How)|\n[-*]\s*\**(?:Why|Demo)|\n\*\*Why|\nWhy |\Z)', notes, re.S | re.I)
     return ' '.join(m.group(1).split())[:1500] if m else ''
 
